@@ -238,6 +238,104 @@ def run(loader, R, tier):
     R.floor("members read below apply()", nmem, 6)
     R.floor("lambda handlers", nhandlers, 80)
 
+    # ---------------------------------------------------------------- R13.5
+    # name resolution: cse() avoids only the names of symbols that occur in
+    # the outputs, so an input that no output uses may be called like a
+    # replacement symbol.  The Symbol handler must consult the replacement
+    # table before the input list.
+    R.rule("R13.5", "the lambda Symbol handler resolves cse replacement "
+                    "symbols before input symbols")
+    n5 = 0
+    for u, f in sorted(prog.functions.items(), key=lambda kv: kv[1]["qn"]):
+        if f["n"] != "bvisit" or not f.get("body") or f.get("dependent") \
+                or "LambdaDoubleVisitor" not in (f.get("cls") or "") \
+                or not f.get("params") or strip_type(
+                    f["params"][0]["t"]) != "SymEngine::Symbol":
+            continue
+        first = {}
+        for i, n in enumerate(walk(f["body"])):
+            if n.get("k") == "mem" and n.get("m") in (
+                    "symbols", "cse_intermediate_fns_map") \
+                    and n["m"] not in first:
+                first[n["m"]] = (i, n.get("l"))
+        n5 += 1
+        key = short(f.get("cls") or "")[:60]
+        R.instance("R13.5", key, sample={"first_reads": {
+            k: v[1] for k, v in first.items()}})
+        if "symbols" in first and (
+                "cse_intermediate_fns_map" not in first
+                or first["cse_intermediate_fns_map"][0]
+                > first["symbols"][0]):
+            R.violation(
+                "R13.5", "LambdaDoubleVisitor::bvisit(Symbol)",
+                prog.loc(f),
+                "the Symbol handler searches the input symbols before the "
+                "cse replacement table: an input that no output uses and "
+                "that is named like a replacement (x0) shadows it, and the "
+                "callback computes with the input value instead of the "
+                "common sub-expression")
+    R.floor("lambda Symbol handlers", n5, 2)
+
+    # ---------------------------------------------------------------- R13.7
+    # an input is identified by expression identity (eq / the identity-keyed
+    # containers), never by its printed name: a Dummy and a Symbol, or two
+    # Dummies, can share a name and are different inputs
+    R.rule("R13.7", "the lambda visitor matches symbols by identity, not "
+                    "by name")
+    n7 = 0
+    for u, f in sorted(prog.functions.items(), key=lambda kv: kv[1]["qn"]):
+        if not f.get("body") or f.get("dependent") \
+                or "LambdaDoubleVisitor" not in (f.get("cls") or ""):
+            continue
+        for n in walk(f["body"]):
+            if n.get("k") == "mcall" and n.get("n") == "get_name" \
+                    and "Symbol" in ((n.get("o") or {}).get("t") or show(
+                        n.get("o") or {})):
+                n7 += 1
+                R.violation(
+                    "R13.7", short(f["qn"])[:70], prog.loc(f, n.get("l")),
+                    "%s uses the *name* of a symbol (`%s`) to identify an "
+                    "input: a Dummy and a Symbol of the same name (x and "
+                    "x.as_dummy()) then share one input slot" % (
+                        short(f["qn"])[:60], show(n)[:40]))
+    R.instance("R13.7", "LambdaDoubleVisitor", sample={
+        "name_based_lookups": n7})
+
+    # ---------------------------------------------------------------- R13.6
+    # cse reserves the name of *every* symbol of the outputs: the
+    # reservation sits on the node the traversal is visiting (so the roots
+    # are covered too), not only on its children
+    R.rule("R13.6", "tree_cse reserves the name of every symbol it visits, "
+                    "roots included")
+    tc = [f for f in prog.functions.values() if f["n"] == "tree_cse"
+          and f.get("body")]
+    if len(tc) != 1:
+        raise AnalysisBroken("tree_cse not found")
+    lams = [n for n in walk(tc[0]["body"]) if n.get("k") == "lambda"
+            and any(m.get("k") == "mcall" and m.get("n") == "insert"
+                    and "excluded_symbols" in show(m.get("o") or {})
+                    for m in walk(n.get("b") or {}))]
+    if not lams:
+        raise AnalysisBroken("tree_cse: no traversal reserves symbol names")
+    for lam in lams:
+        ps = {p_["n"] for p_ in lam.get("params", ())}
+        ins = [m for m in walk(lam.get("b") or {})
+               if m.get("k") == "mcall" and m.get("n") == "insert"
+               and "excluded_symbols" in show(m.get("o") or {})]
+        on_node = [m for m in ins if m.get("a") and any(
+            y.get("k") == "ref" and y.get("n") in ps
+            for y in walk(m["a"][0]))]
+        R.instance("R13.6", "tree_cse@%s" % lam.get("l"), sample={
+            "reservations": [show(m)[:50] for m in ins]})
+        if not on_node:
+            R.violation(
+                "R13.6", "tree_cse", prog.loc(tc[0], ins[0].get("l")),
+                "tree_cse reserves symbol names only for children (`%s`), "
+                "not for the node being visited: a bare symbol that is "
+                "itself an output is not reserved, a replacement can get "
+                "its name and the reduced expressions then confuse the "
+                "two" % show(ins[0])[:50])
+
 
 MANIFEST = dict(
     technique="reset-completeness dataflow (must-write before may-read, with "
